@@ -1818,6 +1818,34 @@ class Engine:
                 else:
                     ok = z3.And(xi >= lo, xi <= hi)
                 return {("disc",): z3.If(ok, z3.IntVal(0), z3.IntVal(1)), (("v", "Ok"), ("f", 0)): conv}
+        m = re.match(r"^(?:core|std)::num::<impl ([ui](?:8|16|32|64|128|size))>::(checked|wrapping|saturating|overflowing)_(add|sub|mul)$", c)
+        if m and len(argvals) == 2:
+            x, y = argvals[0].get(()), argvals[1].get(())
+            if is_z(x) and is_z(y) and z3.is_bv(x) and x.sort() == y.sort():
+                signed = INT_TYPES[m.group(1)][1]
+                op = m.group(3)
+                if op == "add":
+                    r = x + y
+                    no_ov = z3.And(z3.BVAddNoOverflow(x, y, signed), z3.BVAddNoUnderflow(x, y) if signed else z3.BoolVal(True))
+                elif op == "sub":
+                    r = x - y
+                    no_ov = z3.And(z3.BVSubNoUnderflow(x, y, signed), z3.BVSubNoOverflow(x, y) if signed else z3.BoolVal(True))
+                else:
+                    r = x * y
+                    no_ov = z3.And(z3.BVMulNoOverflow(x, y, signed), z3.BVMulNoUnderflow(x, y) if signed else z3.BoolVal(True))
+                kind = m.group(2)
+                if kind == "checked":
+                    return {("disc",): z3.If(no_ov, z3.IntVal(1), z3.IntVal(0)), (("v", "Some"), ("f", 0)): r}
+                if kind == "wrapping":
+                    return {(): r}
+                if kind == "overflowing":
+                    return {(("f", 0),): r, (("f", 1),): z3.Not(no_ov)}
+                if kind == "saturating" and not signed:
+                    n = x.size()
+                    if op == "add":
+                        return {(): z3.If(no_ov, r, z3.BitVecVal((1 << n) - 1, n))}
+                    if op == "sub":
+                        return {(): z3.If(no_ov, r, z3.BitVecVal(0, n))}
         m = re.match(r"^(?:std::cmp::|core::cmp::)?(min|max)::<(.*)>$", c)
         if m and len(argvals) == 2:
             x, y = argvals
